@@ -165,9 +165,10 @@ theorem mergeExtraHosts_perm {a a' b b' : KVs} (ha : a'.Perm a) (hb : b'.Perm b)
 theorem sshDecode_perm {kvs kvs' : KVs} (hn : (akeys kvs).Nodup) (hp : kvs'.Perm kvs) :
     sshDecode (.map kvs') = sshDecode (.map kvs) := sshDecode_perm' hn hp
 
-/-- `HostsList.AsList` + `sort.Strings` (`MarshalYAML`/`MarshalJSON`) -/
-theorem hostsRender_perm {m m' : AL (List String)} (hp : m'.Perm m) : hostsRender m' = hostsRender m :=
-  hostsRender_perm' hp
+/-- `HostsList.sortedList` (`MarshalYAML`/`MarshalJSON`; hosts sorted, each host's addresses in their order — C09 repair):
+the rendering of a map (distinct keys) does not depend on its iteration order -/
+theorem hostsRender_perm {m m' : AL (List String)} (hn : (akeys m).Nodup) (hp : m'.Perm m) : hostsRender m' = hostsRender m :=
+  hostsRender_perm' hn hp
 
 /-- `HostsList.DecodeMapstructure` of a mapping, observed through its rendering: same error-or-list for every order -/
 theorem hostsDecode_perm {kvs kvs' : KVs} (hn : (akeys kvs).Nodup) (hp : kvs'.Perm kvs) :
@@ -229,7 +230,7 @@ example : (akeys ([("b", .int 1), ("a", .null)] : KVs)).Nodup := by decide
 example : intoSeq (.map [("b", .int 1), ("a", .null)]) = intoSeq (.map [("a", .null), ("b", .int 1)]) :=
   intoSeq_perm (List.Perm.swap _ _ _)
 example : sshDecode (.map [("k2", .str "p"), ("k1", .null)]) = .ok [("k1", ""), ("k2", "p")] := by decide
-example : hostsRender [("h2", ["1.1.1.1"]), ("h1", ["::1", "2.2.2.2"])] = ["h1=2.2.2.2", "h1=::1", "h2=1.1.1.1"] := by decide
+example : hostsRender [("h2", ["1.1.1.1"]), ("h1", ["::1", "2.2.2.2"])] = ["h1=::1", "h1=2.2.2.2", "h2=1.1.1.1"] := by decide
 example : mergeGenericKVs [("p", .map [("q", .int 1)])] [("p", .map [("r", .int 2)]), ("x-e", .null)] =
     .ok [("p", .map [("q", .int 1), ("r", .int 2)]), ("x-e", .null)] := by rfl
 example : (mergeGenericKVs [("p", .map [])] [("p", .int 1)]).toBool = false := by decide
